@@ -234,6 +234,20 @@ theorem finally_blocks_match_source :
     Generated.drawFinally = ["write", "if:write", "flush", "if:tcsetattr", "finalize"] ∧
     Generated.writeTtySkel = [("try", "tcdrain", "-", "-")] := by decide
 
+/-- CLOSED WORLD.  An AST walk over every module of the package finds `tcsetattr` (or `tty.setraw`
+    / `setcbreak` / `cfmakeraw`) mentioned in exactly the three modelled functions, and `termios.tc*`
+    calls in those plus `write_tty` (`tcdrain`).  A new mode-changing site anywhere in the package
+    changes the generated list, this theorem stops building, and the check runs the fault-injection
+    histories of the public composite query functions (`get_terminal_name_version`,
+    `get_fg_bg_colors`, `get_cell_size`, `KittyImage/ITerm2Image.is_supported`) against the
+    attribute oracle. -/
+theorem termios_sites_are_the_modelled_ones :
+    Generated.tcsetattrSites =
+      ["renderable._renderable:Renderable.draw", "utils:query_terminal", "utils:read_tty"] ∧
+    Generated.termiosCallSites =
+      ["renderable._renderable:Renderable.draw", "utils:query_terminal", "utils:read_tty",
+       "utils:write_tty"] := by decide
+
 /-- defaults the model relies on: `read_tty()` is the non-blocking mode with `min = 0`, echo off;
     `query_terminal`'s `timeout or _query_timeout` is never `None`/0 (so the nested read is timed);
     `draw` suppresses echo and hides the cursor by default -/
